@@ -19,6 +19,7 @@ type HSpec struct {
 	Unwind   [2]int   // loop bound quick/thorough
 	Budget   [2]int   // wall-clock budget in seconds quick/thorough
 	Models   []string // "lib.Func=vpModelFunc" replacements
+	FixedMapOrder bool // range over Go maps in insertion order only (order-sensitivity is decided elsewhere; stated in evidence)
 	Validate []string // native model validations to run (names registered with vpRegisterModelCheck)
 	What     string   // one line: what it decides
 }
@@ -126,7 +127,7 @@ func runProperty(spec PropSpec, tier string, seed, workers int, solver string) *
 		sh := &Shared{
 			prog: ld.prog, pkg: ld.pkg, harness: fn, hname: hs.Name, params: res.Params,
 			unwind: res.Unwind, modPath: modulePath, marks: newMarkers(), tier: tier,
-			replace: map[string]*ssaFunction{},
+			replace: map[string]*ssaFunction{}, fixedMapOrder: hs.FixedMapOrder,
 			deadline: time.Now().Add(time.Duration(budget) * time.Second),
 		}
 		for _, m := range hs.Models {
